@@ -40,6 +40,8 @@ type EthNode struct {
 	// is not the next one is rejected the way geth rejects it
 	Chain      *Chain
 	NonceDelay time.Duration
+	// SubscribeDelay: how long the endpoint sits on an eth_subscribe request before it answers
+	SubscribeDelay time.Duration
 	RawTxs     [][]byte
 	firstTxAt time.Time
 	NonceAsk  int
@@ -209,6 +211,12 @@ func (a *ethAPI) Logs(ctx context.Context, crit logCrit) (*rpc.Subscription, err
 	notifier, ok := rpc.NotifierFromContext(ctx)
 	if !ok {
 		return nil, rpc.ErrNotificationsUnsupported
+	}
+	a.n.mu.Lock()
+	sd := a.n.SubscribeDelay
+	a.n.mu.Unlock()
+	if sd > 0 {
+		time.Sleep(sd)
 	}
 	sub := notifier.CreateSubscription()
 	ls := &logSub{notifier: notifier, id: sub.ID, addrs: map[common.Address]bool{}, topic0: map[common.Hash]bool{}}
